@@ -47,6 +47,10 @@ def comp(kind, cid, a, b_, k, pal="real"):
     raise ValueError(kind)
 
 
+# node labels that are also element ids of the same circuit (separate name spaces; ids and labels may coincide)
+LABELS_LIKE_IDS = ("L", "VsR", "A", "Z", "R")
+
+
 def build(topo, kt, orient, ids, ground_idx, labels=None, pal="real"):
     n = 1 + max(max(p) for p in topo)
     labels = labels or sp.LABELS_PLAIN[:n]
